@@ -135,6 +135,37 @@ pub fn judge_model(m: &Model, ctx: &mut Ctx, tape: &[u8]) -> Judged {
             Err(e) => return ctx.settle(Violation::new("build-failed", e, case())),
         }
     }
+    // the statement's own observation point: `fml execute FILE` on the saved image must behave
+    // like the in-process run of the loaded program (sampled; preferred for files > 8 KiB,
+    // which exercise the buffered file reader of the command line)
+    if run && (tape_sample(tape, ctx.tier.pick(200, 80)) || (bytes.len() > 8192 && tape_sample(tape, 3))) {
+        if let Ok(p) = fmlrun::load(&bytes) {
+            let inproc = fmlrun::run_stepped(&p, 3000);
+            if !matches!(inproc.exec, fmlrun::Exec::Runaway) {
+                let dir = std::path::PathBuf::from(std::env::var("FMLV_WORK").unwrap_or_else(|_| "/verif/.work".into())).join("C03-scratch");
+                let _ = std::fs::create_dir_all(&dir);
+                let f = dir.join(format!("img-{}.bc", std::process::id()));
+                if std::fs::write(&f, &bytes).is_ok() {
+                    if let Ok(o) = crate::cli::run_fml(&crate::cli::fml_release(), &["execute", f.to_str().unwrap()]) {
+                        ctx.label(if bytes.len() > 8192 { "cli-execute:file>8KiB" } else { "cli-execute" });
+                        let same = o.out_str() == inproc.out && o.status.success() == inproc.exec.is_ok() && !matches!(o.status, crate::cli::Status::Signal(_));
+                        if !same {
+                            let _ = std::fs::remove_file(&f);
+                            return ctx.settle(
+                                Violation::new(
+                                    "saved-file-behaves-differently",
+                                    format!("`fml execute` on the saved image: {:?} {:?} {}\nin-process run of the same image: {:?} {:?}", o.status, o.out_str().chars().take(200).collect::<String>(), o.err_str().chars().take(200).collect::<String>(), inproc.exec, inproc.out.chars().take(200).collect::<String>()),
+                                    case(),
+                                )
+                                .with("origin", "cli"),
+                            );
+                        }
+                    }
+                    let _ = std::fs::remove_file(&f);
+                }
+            }
+        }
+    }
     ctx.label("domain:B");
     ctx.sample(bytes.len(), || json!({"domain": "B", "summary": summary(m), "bytes_hex_prefix": hex(&bytes[..bytes.len().min(96)])}));
     Ok(())
@@ -153,6 +184,9 @@ pub fn summary(m: &Model) -> Value {
 impl Property for C03 {
     fn id(&self) -> &'static str {
         "C03"
+    }
+    fn fuzzable(&self) -> bool {
+        true
     }
     fn rule(&self) -> String {
         "cases: even tapes -> domain A (programs from the typed generator, compiled by FML); odd tapes -> domain B (structurally valid models straight from the tape: any constant mix incl. empty/non-ASCII/long strings, extreme integers, empty classes, arbitrary instruction sequences, pools > 256), each turned into an FML Program via from_bytes(own writer) and via Program::from with natural and reversed code layout; the in-repo .bc files are fixed seeds. oracle: project(load(serialize(P))) == project(P), serialize(load(serialize(P))) byte-identical, same output and outcome class when executed under equal fuel. non-trivial: >= 2 methods and (an empty or non-ASCII string, or i32::MIN/MAX, or a class with >= 2 members); distinct by byte image".into()
